@@ -376,6 +376,39 @@ impl Space for SkinSpace {
                 }
                 r.count("conversions", 1);
             }
+            // thorough: conversion chains s -> t1 -> t2 keep the five data vectors, and a chain that
+            // returns to the layout / version of s gives back the bytes of s
+            if crate::deep() {
+                for (n1, t1) in TARGETS {
+                    for (n2, t2) in TARGETS {
+                        let mut t = CaseResult::new();
+                        (|t: &mut CaseResult| {
+                            let c1 = step!(t, call(|| s.convert(t1).map_err(|e| e.to_string())), "convert(skin)", true);
+                            let c2 = step!(t, call(|| c1.convert(t2).map_err(|e| e.to_string())), "convert(convert(skin))", true);
+                            if c2.is_new_format() != t2.uses_new_skin_format() {
+                                t.viol("chained skin conversion: wrong header layout for the target version", "");
+                                return;
+                            }
+                            diff(t, "chained skin conversion loses content", &content(&s), &content(&c2), true);
+                            let back_home = match (&s, LAYOUTS[d[5] as usize].1) {
+                                (SkinFile::Old(_), _) => !t2.uses_new_skin_format() && !t1.uses_new_skin_format(),
+                                (SkinFile::New(_), Some(v)) => v == t2 && v == t1,
+                                _ => false,
+                            };
+                            if back_home {
+                                let wc = step!(t, skin_write(&c2), "write(convert(convert(skin)))", false);
+                                if let Some(w1) = &w1 {
+                                    byte_diff(t, "chained skin conversion staying in the version of the skin changes the written bytes", w1, &wc);
+                                }
+                            }
+                        })(&mut t);
+                        for v in t.viols {
+                            r.viol(v.symptom, format!("via {n1} to {n2}: {}", v.detail));
+                        }
+                        r.count("conversions", 2);
+                    }
+                }
+            }
         }
         r.outcome = if r.viols.is_empty() { "held".into() } else { format!("{}viol", r.outcome) };
         r
